@@ -72,6 +72,15 @@ func (e *episode) buildTx(ver uint32, ins []*wcoin, seqs []uint32, outs []chaink
 			}
 			tx.SegWit[i] = [][]byte{w.redeem}
 			changed = true
+		case "p2wsh-any": // realpool.go: OP_DROP OP_1 — any one item satisfies it
+			if tx.SegWit == nil {
+				tx.SegWit = make([][][]byte, len(ins))
+				for k := range tx.SegWit {
+					tx.SegWit[k] = [][]byte{}
+				}
+			}
+			tx.SegWit[i] = [][]byte{{0x07}, w.redeem}
+			changed = true
 		}
 	}
 	if changed {
@@ -672,15 +681,35 @@ func kinds() []kindEntry {
 func episodeOpts(ep int) epOpts {
 	// every third episode runs with chain.TrustedTxChecker installed (pool.go), the second corpus episode included,
 	// and every fourth one with compressed UTXO records (compr.go), the third corpus episode included
-	return epOpts{NoCSV: ep%6 == 4, NoSegWit: ep%7 == 5, Pool: ep%3 == 1, Compress: ep%4 == 2}
+	o := epOpts{NoCSV: ep%6 == 4, NoSegWit: ep%7 == 5, Pool: ep%3 == 1, Compress: ep%4 == 2}
+	// fourth round: the road of the block object (entry.go), the record allocator (alloc.go), the real pool (realpool.go)
+	switch {
+	case ep%4 == 3:
+		o.Entry = "cache"
+	case ep%8 == 1:
+		o.Entry = "net"
+	}
+	switch {
+	case ep%4 == 0:
+		o.Alloc = "poison" // the first corpus episode included
+	case ep%12 == 6:
+		o.Alloc = "client"
+	}
+	if ep%6 == 3 {
+		o.RealPool, o.Pool, o.NoSegWit = true, false, false
+	}
+	return o
 }
+
+// inChild: episodes in which a failure of the real code can take the process down (child.go)
+func inChild(o epOpts) bool { return o.Compress || o.Alloc == "client" }
 
 func runEpisodes(r *Run, o *vlib.Oracle) {
 	nEp := r.N(12, 220)
 	for ep := 0; ep < nEp; ep++ {
 		g := r.Rng.Fork()
-		if episodeOpts(ep).Compress {
-			// compressed records + wide transactions: a failure may kill the process from a goroutine of the real code → child.go
+		if inChild(episodeOpts(ep)) {
+			// compressed records + wide transactions / the client's allocator: a failure may kill the process → child.go
 			runChild(r, childSpec{Mode: "episode", Ep: ep, Sub: g.U64()})
 			continue
 		}
@@ -695,6 +724,10 @@ func runEpisode(r *Run, o *vlib.Oracle, ep int, g *vlib.Rng) {
 		totalW += k.weight
 	}
 	steps := r.N(45, 70)
+	if opts := episodeOpts(ep); opts.RealPool {
+		runRealPoolEpisode(r, o, ep, g, opts) // realpool.go
+		return
+	}
 	{
 		opts := episodeOpts(ep)
 		e := newEpisode(r, o, g, opts)
@@ -753,6 +786,7 @@ func runEpisode(r *Run, o *vlib.Oracle, ep int, g *vlib.Rng) {
 			}
 		}
 		r.Hit(fmt.Sprintf("episodes(csv=%v,segwit=%v,pool=%v,compress=%v)", !opts.NoCSV, !opts.NoSegWit, opts.Pool, opts.Compress))
+		r.Hit(fmt.Sprintf("episodes(entry=%q,alloc=%q)", opts.Entry, opts.Alloc))
 		e.close()
 	}
 }
